@@ -11,7 +11,9 @@ ref = os.path.join(VERIF_ROOT, "reference")
 os.makedirs(ref, exist_ok=True)
 table = repo.const("skepticoin.cheating.KNOWN_HASHES")
 json.dump({str(k): v for k, v in sorted(table.items())}, open(os.path.join(ref, "known_hashes.json"), "w"), indent=0)
-json.dump({"classes": json.loads(json.dumps(wire_signature(ck)))}, open(os.path.join(ref, "wire_format.json"), "w"), indent=1, sort_keys=True)
+from verif.rules.c18 import message_classes
+json.dump({"classes": json.loads(json.dumps(wire_signature(ck))), "messages": json.loads(json.dumps(wire_signature(ck, message_classes(ck))))},
+          open(os.path.join(ref, "wire_format.json"), "w"), indent=1, sort_keys=True)
 data = repo.const("skepticoin.genesis.genesis_block_data")
 open(os.path.join(ref, "genesis.sha256"), "w").write(hashlib.sha256(data).hexdigest() + "  genesis_block_data (%d bytes)\n" % len(data))
 json.dump(sorted(repo.functions), open(os.path.join(ref, "api_functions.json"), "w"), indent=0)
